@@ -8,7 +8,11 @@ behaviour) and every command also on a *direct* copy of the store (`Mem.step`, n
 
   case <cap> <timeout>          reset
   init <command>                apply to the backend and to the direct copy (building the initial store)
-  enter fast|locked|serializable
+  enter fast|locked|serializable            a block on a context object of its own (`async with cache.transaction(m):`)
+  enter fast|locked|serializable dec        the decorator form `@cache.transaction(m)` (a new object per call: same model event)
+  enter fast|locked|serializable dec@<o>    the decorator form with the shared object <o> as the decorator (`@T[o]`): `__call__`
+                                            builds a new object per call and does not touch `T[o]` — same model event
+  enter fast|locked|serializable @<o>       a block on the shared context object number <o> (`async with T[o]:`)
   exit ok|exc
   rollback | commitnow          explicit `tx.rollback()` / `tx.commit()`
   <command>                     as in the C01 driver
@@ -16,6 +20,7 @@ behaviour) and every command also on a *direct* copy of the store (`Mem.step`, n
 Answers: `tx=<out> direct=<out> b=<backend live view> d=<direct live view>`; the lines that end a
 transaction segment (outermost exit, explicit rollback / commit) add `ndc=T|F` — `NoDeadlineCrossed`
 evaluated on the backend at the start of the segment and the commands of the segment.
+Segments are syntactic: they start at the outermost `enter` and end at the matching `exit`.
 At every segment end the views are printed first and then the direct copy is re-synchronised with
 the backend, so every segment starts from `direct = backend`.
 -/
@@ -78,6 +83,18 @@ def closeSeg (s : St) : St × String :=
   let ndc := NoDeadlineCrossed s.b0 s.acc
   ({ s with b0 := s.ctx.st.b, acc := [] }, s!"ndc={showB ndc}")
 
+/-- `@<o>` -/
+def parseObj? (w : String) : Option Nat :=
+  if w.startsWith "@" then (w.drop 1).toNat? else none
+
+/-- open a block: `x = none` an object of its own, `some o` the shared object `o` -/
+def enterStep (s : St) (m : TxMode) (x : Option Nat) : St × String :=
+  let wasIn := !s.ctx.frames.isEmpty
+  let (c', o) := s.ctx.step (match x with | some ob => .enterObj ob m | none => .enter m)
+  let s1 := { s with ctx := c' }
+  let s' := if wasIn then s1 else { s1 with b0 := c'.st.b, acc := [] }
+  (s', s!"tx={showOut o} " ++ views s')
+
 def step (s : St) (line : String) : St × String :=
   match words line with
   | ["case", cap, timeout] =>
@@ -89,7 +106,7 @@ def step (s : St) (line : String) : St × String :=
     match parseOp? ws with
     | none => (s, "bad-op")
     | some op =>
-      if s.ctx.inTx then (s, "bad-op") else
+      if !s.ctx.frames.isEmpty then (s, "bad-op") else
       let (c', _) := s.ctx.step (.cmd op)
       let (d', _) := s.direct.step op
       let s' := { s with ctx := c', direct := d', b0 := c'.st.b }
@@ -97,14 +114,18 @@ def step (s : St) (line : String) : St × String :=
   | ["enter", m] =>
     match parseMode? m with
     | none => (s, "bad-op")
+    | some m => enterStep s m none
+  | ["enter", m, x] =>
+    match parseMode? m with
+    | none => (s, "bad-op")
     | some m =>
-      let wasIn := s.ctx.inTx
-      let (c', o) := s.ctx.step (.enter m)
-      let s' := if wasIn then { s with ctx := c' } else { s with ctx := c', b0 := c'.st.b, acc := [] }
-      (s', s!"tx={showOut o} " ++ views s')
+      if x = "dec" || (x.startsWith "dec@" && ((x.drop 4).toNat?).isSome) then enterStep s m none else
+      match parseObj? x with
+      | none => (s, "bad-op")
+      | some o => enterStep s m (some o)
   | ["exit", how] =>
     if how ≠ "ok" ∧ how ≠ "exc" then (s, "bad-op") else
-    let outer := s.ctx.frames.head? = some false
+    let outer := s.ctx.frames.length = 1
     let (c', o) := s.ctx.step (.exit (how = "exc"))
     let s1 := { s with ctx := c' }
     if outer then
@@ -125,8 +146,9 @@ def step (s : St) (line : String) : St × String :=
     | some op =>
       let (c', o) := s.ctx.step (.cmd op)
       let (d', o') := s.direct.step op
-      let s' := { s with ctx := c', direct := d', acc := if s.ctx.inTx then s.acc ++ [op] else s.acc,
-                         b0 := if s.ctx.inTx then s.b0 else c'.st.b }
+      let inBlock := !s.ctx.frames.isEmpty
+      let s' := { s with ctx := c', direct := d', acc := if inBlock then s.acc ++ [op] else s.acc,
+                         b0 := if inBlock then s.b0 else c'.st.b }
       (s', s!"tx={showOut o} direct={showOut o'} " ++ views s')
 
 def run : IO Unit :=
